@@ -55,10 +55,14 @@ impl Prop for C12 {
             } }
         }
         v.extend(crate::props::tty::tty_cases(&crate::props::tty::OPS_C12, tier, seed));
+        // the output cannot be delivered (-o on a full device, standard output on a full device, standard output on a pipe whose reader left):
+        // whichever way the output is wired, the tool must not report success
+        v.extend(crate::props::c10::C10.cases(tier, seed ^ 0x12).into_iter().filter(|c| get(c, "op") == "cli-devfull"));
         v
     }
     fn run(&self, c: &Case, m: &mut Model) -> Outcome {
         if get(c, "kind") == "tty" { return crate::props::tty::run_tty_case(c, m); }
+        if get(c, "op") == "cli-devfull" { return crate::props::c10::C10.run(c, m); }
         let mut o = Outcome::default();
         let fx = fixtures();
         let mut rng = Rng::new(get(c, "seed").parse().unwrap_or(0));
@@ -90,7 +94,10 @@ impl Prop for C12 {
             "badmagic" => { infile[3] ^= 0x40; expect_ok = false; }
             _ => {} } }
         if !decrypting && get(c, "kr") == "sender-absent" && keym { expect_ok = false; }
-        let mut files = vec![(PLAIN.to_string(), infile.clone())];
+        // the name of the input file is the user's business: it may well be spelled like a command word or an alias
+        let in_name: &str = if file_arg { ["in.bin", "dec", "in.bin", "enc", "pass", "in.bin", "gen", "decrypt", "key", "password", "encrypt", "in.bin"][(rng.next() % 12) as usize] } else { PLAIN };
+        if in_name != PLAIN { o.tags.push("input file named like a command word".into()); }
+        let mut files = vec![(in_name.to_string(), infile.clone())];
         if input != "nokeyring" { files.push((KR.to_string(), kr_text.clone().into_bytes())); } else if keym { expect_ok = false; }
         if !k_opt && keym { env.push(("KESTREL_KEYRING".into(), KR.into())); }
         // -k given: a KESTREL_KEYRING that is set as well (a default exported in the shell profile) must not matter, whatever it names
@@ -104,7 +111,7 @@ impl Prop for C12 {
         let has_stale = out_opt && (w >> 2) % 2 == 0;
         if has_stale { files.push(("out.bin".into(), stale.clone())); }
         let world = World { files, env, stdin: if file_arg { vec![] } else { infile.clone() } };
-        let args = render(op, "bob", "alice", file_arg, out_opt, k_opt, long, alias, eqform, PLAIN, "out.bin");
+        let args = render(op, "bob", "alice", file_arg, out_opt, k_opt, long, alias, eqform, in_name, "out.bin");
         let obs = run_kestrel(&world, &args);
         let (ra, rb) = (rng.bytes(32), rng.bytes(32));
         let mo = model_cli(m, &world, &args, &ra, &rb);
